@@ -1,11 +1,11 @@
 SPECIFICATION Spec
 CONSTANTS
-  Names <- NamesQ
+  Names <- NamesT
   Times = {0, 1, 2}
   Durs <- DursQ
   MaxTok = 2
-  MaxHolds = 1
-  MaxConds = 1
+  MaxHolds = 2
+  MaxConds = 2
   Monotone = TRUE
 INVARIANTS TypeOK MutualExclusion MutualExclusionNames HeldConsistent WalkIsOverlap ConfirmDeterministic
 PROPERTIES CreateIff TokensUnique ExpiredIsDead HeldIsExclusive OnlyReleaseUnholds
